@@ -1233,6 +1233,8 @@ class YearMonthDuration(Duration):
     def __mul__(self, other: object) -> 'YearMonthDuration':
         if not isinstance(other, (float, int, Decimal)):
             raise TypeError("cannot multiply a %r by %r" % (type(self), type(other)))
+        elif not isinstance(other, int) and math.isinf(other):
+            raise OverflowError("cannot multiply a %r by infinity" % type(self))
         return YearMonthDuration(months=int(round_number(self.months * other)))
 
     def __truediv__(self, other: object) -> Union[float, 'YearMonthDuration']:
@@ -1298,6 +1300,8 @@ class DayTimeDuration(Duration):
         if isinstance(other, (float, int, Decimal)):
             if math.isnan(other):
                 raise ValueError("cannot multiply a %r by NaN" % type(self))
+            elif not isinstance(other, int) and math.isinf(other):
+                raise OverflowError("cannot multiply a %r by infinity" % type(self))
 
             if isinstance(other, (int, Decimal)):
                 seconds = self.seconds * other
